@@ -80,6 +80,11 @@ class Fn:
     def short(self):
         return self.id
 
+    @property
+    def key(self):
+        """cache key: an inlined view shares its id with the plain body but not its statements"""
+        return self.id + '#v' if getattr(self, 'inlined', None) else self.id
+
     def __repr__(self):
         return 'Fn(%s)' % self.id
 
@@ -392,6 +397,7 @@ class Fn:
                     f = t[1]
                     if f.get('def', '').endswith('FromResidual::from_residual') and t[3][0] == 0 and not t[3][1]:
                         E.add(bi)
+            E |= set(getattr(self, 'extra_err', ()))     # error exits of `?`-propagated helpers spliced into a view
             self._errblocks = E
         return self._errblocks
 
@@ -458,6 +464,39 @@ class Program:
         self._callees = {}
         self._callers = None
         self._reach_cache = {}
+        self.inline_depth = 0      # >0: lookups return bodies with workspace helpers inlined that deep (see inline.py)
+        self._views = {}
+
+    def bodies(self):
+        """every body a whole-program rule should visit. Inline mode: views instead of plain bodies, and functions that are new
+        relative to the pinned inventory are skipped (their statements are accounted for inside their callers' views)"""
+        if not self.inline_depth:
+            return list(self.fns.values())
+        import inline
+        K = inline.known_fns() or set()
+        out = []
+        for f in self.fns.values():
+            if f.kind in ('fn', 'assocfn') and f.id not in K and self.callers.get(f.id):
+                continue
+            if f.kind == 'closure':
+                root = f
+                while root is not None and root.kind == 'closure':
+                    root = self.fns.get(root.parent)
+                if root is not None and root.kind in ('fn', 'assocfn') and root.id not in K and self.callers.get(root.id):
+                    continue
+            out.append(self.V(f))
+        return out
+
+    def V(self, f):
+        """the body rules should look at: f itself, or (inline mode) f with its workspace callees spliced in"""
+        if not self.inline_depth or f is None or getattr(f, 'inlined', None) or f.kind not in ('fn', 'assocfn', 'closure'):
+            return f
+        v = self._views.get(f.id)
+        if v is None:
+            import inline
+            v = inline.view(self, f, self.inline_depth)
+            self._views[f.id] = v
+        return v
 
     # ---- lookup
     def fn(self, fid):
@@ -478,7 +517,7 @@ class Program:
         if len(r) != 1:
             raise AnchorMissing('anchor %s%s: expected exactly one function, found %d %s' % (
                 (crate + ' ') if crate else '', suffix, len(r), [f.id for f in r][:5]))
-        return r[0]
+        return self.V(r[0])
 
     def closures_of(self, fid, recursive=True):
         if self._closures_of is None:
@@ -489,10 +528,17 @@ class Program:
             self._closures_of = m
         out = []
         st = [fid]
+        seen = set()
         while st:
             x = st.pop()
-            for c in self._closures_of.get(x, []):
-                out.append(c)
+            cs = list(self._closures_of.get(x, []))
+            if self.inline_depth and x in self._views:
+                cs += [c for c in getattr(self._views[x], 'extra_closures', []) if c not in cs]
+            for c in cs:
+                if c.id in seen:
+                    continue
+                seen.add(c.id)
+                out.append(self.V(c))
                 if recursive:
                     st.append(c.id)
         return out
@@ -511,7 +557,7 @@ class Program:
     def callees(self, f):
         """set of function ids that may run when f runs: resolved callees, closures and fn items
         mentioned at its call sites (generic args / operands), closure aggregates built in f."""
-        r = self._callees.get(f.id)
+        r = self._callees.get(f.key)
         if r is None:
             r = set()
             for c in f.calls:
@@ -541,7 +587,7 @@ class Program:
                             r.add(rv[2][1].get('res') or rv[2][1]['fn'])
                         elif rv[0] == 'use' and rv[1][0] == 'k' and 'fn' in rv[1][1]:
                             r.add(rv[1][1].get('res') or rv[1][1]['fn'])
-            self._callees[f.id] = r
+            self._callees[f.key] = r
         return r
 
     def reachable_fns(self, fid):
@@ -577,7 +623,7 @@ class Program:
     def call_sites(self, pred, fns=None):
         """all Call objects (in non-const, non-promoted bodies) whose callee satisfies pred(callee_path)"""
         out = []
-        for f in (fns if fns is not None else self.fns.values()):
+        for f in (fns if fns is not None else self.bodies()):
             if f.kind in ('promoted', 'const'):
                 continue
             for c in f.calls:
@@ -630,7 +676,7 @@ class Program:
         """[(Fn, bb, line)] for every statement/call-destination writing (ADT, field), including writes
         through &mut borrows of the field handed to a call (`ref mut place.field`)."""
         out = []
-        for f in (fns if fns is not None else self.fns.values()):
+        for f in (fns if fns is not None else self.bodies()):
             if f.kind in ('promoted', 'const'):
                 continue
             for bi, b in enumerate(f.blocks):
@@ -829,9 +875,9 @@ class Slicer:
     def _q(self, item):
         ck = None
         if item[0] == 'lo':
-            ck = ('lo', item[1].id, item[2], item[3])
+            ck = ('lo', item[1].key, item[2], item[3])
         elif item[0] == 'up':
-            ck = ('up', item[1].id, item[2])
+            ck = ('up', item[1].key, item[2])
         if ck is not None and ck in self.cache:
             return self.cache[ck]
         out = set()
@@ -900,11 +946,11 @@ class Slicer:
                 work.append(('lo', fn, base, first_field(pl)))
             elif kind == 'up':
                 idx = it[2]
-                key = ('up', fn.id, idx)
+                key = ('up', fn.key, idx)
                 if key in seen:
                     continue
                 seen.add(key)
-                par = self.prog.fns.get(fn.parent)
+                par = self.prog.V(self.prog.fns.get(fn.parent))
                 if par is not None:
                     for b in par.blocks:
                         for st in b['s']:
@@ -914,7 +960,7 @@ class Slicer:
                                     work.append(('op', par, ops[idx]))
             elif kind == 'lo':
                 l, ff = it[2], it[3]
-                key = ('lo', fn.id, l, ff)
+                key = ('lo', fn.key, l, ff)
                 if key in seen:
                     continue
                 seen.add(key)
@@ -945,7 +991,7 @@ class Slicer:
                                     work.append(('rv', cf, d2[4]))
             elif kind == 'ca':
                 c = it[2]
-                key = ('ca', fn.id, c.bb)
+                key = ('ca', fn.key, c.bb)
                 if key in seen:
                     continue
                 seen.add(key)
@@ -1068,6 +1114,113 @@ def expr_ops(prog, fn, op, depth=0, seen=None):
         out.add(('OP', ARITH_CALLS[last]))
     for a in c.args:
         out |= expr_ops(prog, fn, a, depth + 1, seen)
+    return out
+
+
+_LIN_OPS = re.compile(r'core::ops::arith::(Add|Sub|Neg)(Assign)?\b')
+_LIN_THROUGH = ('core::clone::Clone::clone', 'core::ops::deref::Deref::deref', 'core::borrow::Borrow::borrow', 'core::convert::From::from', 'core::convert::Into::into',
+                'core::convert::AsRef::as_ref', 'core::ops::try_trait::Try::branch', 'alloc::borrow::ToOwned::to_owned')
+
+
+def linear_form(prog, fn, op, sign=1, depth=0, seen=None, out=None):
+    """Signed leaves of an additive expression: {leaf: set(signs)} where a leaf is 'F:Adt.field' (a field read), 'P:n' (a parameter),
+    'C:<callee>' (result of a call that is not +, -, unary -, clone/deref/`?` plumbing), 'K:<const>' or 'V:<literal>'.
+    `a - b - c`, `a - (b + c)` and `let t = b + c; a - t` give the same form, so a ledger formula can be pinned up to
+    re-association.  Walks single-definition temporaries only; anything else becomes a leaf 'L:<local>' with both signs."""
+    out = out if out is not None else {}
+    seen = seen if seen is not None else set()
+
+    def leaf(k, sg):
+        out.setdefault(k, set()).add(sg)
+    if depth > 40:
+        return out
+    if op[0] == 'k':
+        k = op[1]
+        if 'def' in k and 'promoted' not in k:
+            leaf('K:' + k['def'].split('::')[-1], sign)
+        elif 'promoted' in k:
+            pf = prog.promoted_of(fn, k['promoted'])
+            if pf is not None:
+                linear_form(prog, pf, ['c', [0, []]], sign, depth + 1, seen, out)
+        elif 'val' in k:
+            leaf('V:%s' % k['val'], sign)
+        return out
+    if op[0] not in ('c', 'm'):
+        return out
+    pl = op[1]
+    flds = [p for p in pl[1] if isinstance(p, list) and p[0] == 'f' and p[2] != 'tuple' and not p[2].startswith('core::') and not p[2].startswith('closure:')]
+    if flds:
+        leaf('F:%s.%s' % (flds[-1][2].split('::')[-1], flds[-1][3]), sign)
+        return out
+    l = pl[0]
+    if 1 <= l <= fn.nargs and not (fn.kind == 'closure' and l == 1):
+        leaf('P:%d' % l, sign)
+        return out
+    ds = [d for d in fn.defs.get(l, []) if d[0] in ('=', 'call')]
+    if len(ds) > 1:
+        # a Result that is Ok(value) on one path and an error on the others: the value is what the Ok arm carries
+        ds = [d for d in ds if not (d[0] == '=' and d[4][0] == 'agg' and d[4][1].get('variant') == 'Err') and not (d[0] == 'call' and (d[2].defp or '').endswith('FromResidual::from_residual'))]
+    if (fn.key, l, sign) in seen:
+        return out
+    if len(ds) != 1:
+        if 2 <= len(ds) <= 4 and all(not d[3][1] for d in ds if d[0] == '='):
+            # a value chosen among a few alternatives (`if c { a } else { b }`): the union of their forms
+            seen.add((fn.key, l, sign))
+            for d in ds:
+                _lin_def(prog, fn, l, d, sign, depth, seen, out, leaf)
+            return out
+        leaf('L:%s' % fn.name_of(l), 1)
+        leaf('L:%s' % fn.name_of(l), -1)
+        return out
+    seen.add((fn.key, l, sign))
+    return _lin_def(prog, fn, l, ds[0], sign, depth, seen, out, leaf)
+
+
+def _lin_def(prog, fn, l, d, sign, depth, seen, out, leaf):
+    if d[0] == '=':
+        rv = d[4]
+        k = rv[0]
+        if k == 'use':
+            return linear_form(prog, fn, rv[1], sign, depth + 1, seen, out)
+        if k == 'cast':
+            return linear_form(prog, fn, rv[2], sign, depth + 1, seen, out)
+        if k in ('ref', 'rawptr'):
+            return linear_form(prog, fn, ['c', rv[2]], sign, depth + 1, seen, out)
+        if k == 'cfd':
+            return linear_form(prog, fn, ['c', rv[1]], sign, depth + 1, seen, out)
+        if k == 'bin':
+            o = norm_op(rv[1])
+            if o == 'Add':
+                linear_form(prog, fn, rv[2], sign, depth + 1, seen, out)
+                return linear_form(prog, fn, rv[3], sign, depth + 1, seen, out)
+            if o == 'Sub':
+                linear_form(prog, fn, rv[2], sign, depth + 1, seen, out)
+                return linear_form(prog, fn, rv[3], -sign, depth + 1, seen, out)
+            leaf('L:%s' % fn.name_of(l), sign)
+            return out
+        if k == 'un' and rv[1] == 'Neg':
+            return linear_form(prog, fn, rv[2], -sign, depth + 1, seen, out)
+        if k == 'agg' and rv[1].get('k') == 'adt' and rv[1].get('adt') in ('core::result::Result', 'core::option::Option') and len(rv[2]) == 1:
+            return linear_form(prog, fn, rv[2][0], sign, depth + 1, seen, out)
+        leaf('L:%s' % fn.name_of(l), sign)
+        return out
+    c = d[2]
+    dp, cal = c.defp or '', c.callee or ''
+    m = _LIN_OPS.search(dp) or _LIN_OPS.search(cal)
+    if m and not m.group(2):
+        if m.group(1) == 'Neg':
+            return linear_form(prog, fn, c.args[0], -sign, depth + 1, seen, out)
+        linear_form(prog, fn, c.args[0], sign, depth + 1, seen, out)
+        return linear_form(prog, fn, c.args[1], sign if m.group(1) == 'Add' else -sign, depth + 1, seen, out)
+    if dp in _LIN_THROUGH or cal in _LIN_THROUGH or dp.endswith('::clone') or dp in ADAPTERS or cal in ADAPTERS or dp.endswith('::map_err') or dp.endswith('::neg') and False:
+        return linear_form(prog, fn, c.args[0], sign, depth + 1, seen, out)
+    if dp.endswith('Neg::neg') or cal.endswith('::neg'):
+        return linear_form(prog, fn, c.args[0], -sign, depth + 1, seen, out)
+    if (dp.endswith(('cmp::Ord::max', 'cmp::Ord::min', 'cmp::max', 'cmp::min')) or cal.endswith(('cmp::max', 'cmp::min'))) and len(c.args) == 2:
+        leaf('C:' + (dp or cal).split('::')[-1], sign)        # monotone in both arguments: they keep their sign
+        linear_form(prog, fn, c.args[0], sign, depth + 1, seen, out)
+        return linear_form(prog, fn, c.args[1], sign, depth + 1, seen, out)
+    leaf('C:' + '::'.join((cal or dp).split('::')[-2:]), sign)
     return out
 
 
